@@ -38,17 +38,26 @@ def anchors():
 
 
 def user_values(msg, rng):
-    """R's exact values -> user JSON values. Strings sometimes stripped of trailing blanks
-    (the encoder must pad), all-ones strings sometimes given as None."""
+    """R's exact values -> user JSON values. Strings are often given without their trailing blanks -
+    down to the empty string for an all-blank field - (the encoder must pad), all-ones strings
+    sometimes as None.  For compressed data the choice is made per column, so that subsets which agree
+    after padding are also given identical values."""
     out = []
+    strip_col = {}
     for s in msg.subsets:
         row = []
-        for v, m in zip(s.values, s.meta):
+        for j, (v, m) in enumerate(zip(s.values, s.meta)):
             x = R.to_json_value(v, m)
             if isinstance(v, bytes):
+                if msg.compressed:
+                    if j not in strip_col:
+                        strip_col[j] = rng.random() < 0.5
+                    strip = strip_col[j]
+                else:
+                    strip = rng.random() < 0.5
                 if v and v == b'\xff' * len(v) and not msg.compressed and rng.random() < 0.5:
                     x = None
-                elif rng.random() < 0.5 and not v.endswith(b'\xff') and v.strip(b' ') and not msg.compressed:
+                elif strip and not v.endswith(b'\xff'):
                     x = v.rstrip(b' ').decode('latin-1')
             row.append(x)
         out.append(row)
